@@ -190,6 +190,7 @@ func (e *c12env) execC12(inv gencore.Invocation, other *gencore.Invocation, t *t
 	if o.faultAt >= 0 {
 		b = e.baselineF(inv, o.faultAt, o.faultKind)
 		o.dirstate = 0
+		o.ambient = 0 // the processor count may change how many goroutines issue file operations, hence which one is the k-th
 	}
 	_ = plain
 	verifhook.Masked = map[int]bool{}
@@ -251,7 +252,9 @@ func (e *c12env) execC12(inv gencore.Invocation, other *gencore.Invocation, t *t
 			}
 		}
 	} else {
-		r = gencore.RunInProcess(inv, in, out, gencore.Sched{Tape: t, Active: active, SiteSeeds: seeds, ClockOffset: o.toff, FaultAt: o.faultAt, Kind: o.faultKind, TornNum: 1, TornDen: 2, Ambient: o.ambient, Stall: o.stall}, e.root)
+		r = gencore.RunInProcess(inv, in, out, gencore.Sched{Tape: t, Active: active, SiteSeeds: seeds, ClockOffset: o.toff, FaultAt: o.faultAt, Kind: o.faultKind, TornNum: 1, TornDen: 2, Ambient: o.ambient, Stall: o.stall,
+			// "the same I/O error at the k-th file operation" only means the same thing under the baseline's schedule
+			FixedSchedule: o.faultAt >= 0}, e.root)
 	}
 	o.deviated = r.Deviated
 	o.events = r.Events
